@@ -125,6 +125,22 @@ def check(ctx):
             'client ports have no out-event links of their own (out events come from the selector)' if not extra else
             'client ports get out-event links')
 
+    # every event / port repetition ranges over the complete collection: no partial view (slice, last group of a
+    # groupby ...) - otherwise some (port, event) pairs get no link at all
+    seen_src = set()
+    for entry, loops in w.loops.items():
+        for lp in loops:
+            for src in [lp.src] + [fr.src for fr in lp.frames if fr.kind == 'rep']:
+                key = (entry, repr(src.base), src.order)
+                if key in seen_src:
+                    continue
+                seen_src.add(key)
+                partial = src.order.startswith('partial') or any('[' in p for p in getattr(src.base, 'path', ()))
+                run.add('C01.cover', mod, lp.where or entry, f'{entry}: links range over {src!r}'[:200], not partial,
+                        'the links are generated for every element of the collection' if not partial else
+                        f'the links are generated for a partial view of the collection ({src.order or "slice"}): the remaining '
+                        f'events / ports are left unrouted')
+
     # ---- per link rules ----------------------------------------------------------------------------------------------------
     seen = set()
     for entry, kind, d, role, ln in links:
